@@ -252,9 +252,13 @@ class HSFZConnection:
                 unexpected_packets.append((hdr, req_hdr, data))
                 continue
 
-            # We do not want to consume packets that we were not expecting; add them to queue again
+            # We do not want to consume packets that we were not expecting; add them to queue again.
+            # They arrived before everything which is still queued, so they go back in front of it;
+            # otherwise a later read returns responses out of order.
+            while not self._read_queue.empty():
+                unexpected_packets.append(self._read_queue.get_nowait())
             for item in unexpected_packets:
-                await self._read_queue.put(item)
+                self._read_queue.put_nowait(item)
 
             return
 
